@@ -211,15 +211,7 @@ func runCase(tc tcase) outcome {
 		out.end = time.Now()
 		close(stop)
 		feeder.Wait() // the feeder never blocks (TryFeed); only then is the association closed, as the server loop would
-		go func() {
-			for {
-				select {
-				case <-vpc.CloseCh:
-				case <-time.After(200 * time.Millisecond):
-					return
-				}
-			}
-		}()
+		vpc.DrainCloseNotifications()
 		_ = vpc.Close()
 		out.pulled = cx.VerifBufLen()
 		out.closed = true
